@@ -183,7 +183,7 @@ pub fn exec(spec: &Spec, r: &mut RunResult) {
                                     if neg { "+negative-impl" } else { "" },
                                     if orig.starts_with("Ambiguous") && !spec.world.goals[op.goal].contains("exists") { "+recorded-ambiguous-closed" } else { "" }
                                 ) + &static_tags(&spec.world, op.goal)
-                                    + if orig.starts_with("Ambiguous") != replayed.starts_with("Ambiguous") && !orig.starts_with("No possible") && !replayed.starts_with("No possible") { "+unique-vs-ambig" } else { "" })),
+                                    + if orig.starts_with("Ambiguous") != replayed.starts_with("Ambiguous") && !orig.starts_with("No possible") && !replayed.starts_with("No possible") { "+unique-vs-ambig" } else if orig.starts_with("Ambiguous") && replayed.starts_with("Ambiguous") { "+guidance-differs" } else { "" })),
                             );
                         }
                     }
